@@ -10,7 +10,7 @@
 -/
 import DymVerif.Lemmas.CoreForkSpec
 import DymVerif.Lemmas.CoreCustody3
-namespace DymVerif.Core
+namespace DymVerif.Core.Fork
 
 -- ---------------------------------------------------------------- definitions
 
@@ -371,4 +371,4 @@ theorem seqOnHardFork_good (s : St) (ra : Nat) : Good s (seqOnHardFork s ra) := 
   unfold seqOnHardFork
   exact ((optOutAll_good s ra).trans (abruptRemoveProposer_good _ _)).trans (setSuccessor_none_good _ _)
 
-end DymVerif.Core
+end DymVerif.Core.Fork
